@@ -119,7 +119,10 @@ def _prune(keep):
     except FileNotFoundError:
         return
     ents.sort(key=lambda e: os.path.getmtime(os.path.join(CACHE, e)), reverse=True)
-    for e in ents[5:]:      # keep the six most recent trees (concurrent checks on other trees may still be running)
+    now = time.time()
+    for e in ents[5:]:      # keep the six most recent trees, and any tree used within the last two hours (concurrent checks)
+        if now - os.path.getmtime(os.path.join(CACHE, e)) < 7200:
+            continue
         shutil.rmtree(os.path.join(CACHE, e), ignore_errors=True)
 
 
@@ -141,6 +144,10 @@ def build(variant, jobs=16, quiet=False):
     vd = os.path.join(CACHE, th, variant)
     stamp = os.path.join(vd, "OK")
     if os.path.exists(stamp):
+        try:
+            os.utime(os.path.join(CACHE, th), None)     # mark the tree as in use (pruning spares recently used trees)
+        except OSError:
+            pass
         return vd
     with Lock(os.path.join(CACHE, "lock." + variant)):
         if os.path.exists(stamp):
